@@ -711,6 +711,9 @@ func c03CallOptions(c *core.Ctx) {
 		if m == nil || m.Blocks == nil || len(m.Params) != 2 || m.Signature.Results().Len() != 0 {
 			continue
 		}
+		if core.TypeStr(m.Params[1].Type()) == grpcPkg+".CallOption" {
+			continue // a collector step (records one option), not a fan-out of a received value
+		}
 		key := core.FuncName(m) + ":fan-out"
 		// a loop over a slice field storing through the element
 		var ranged string
